@@ -238,6 +238,20 @@ func init() {
 			}
 			seen = backendObs{}
 			chain := r.chance(1, 2) && !call.invalid
+			unroutable, badName := false, ""
+			if chain && !failing && (call.name == "GetBook" || call.name == "ListBooks" || call.name == "CreateBook") && r.chance(1, 6) {
+				// a well-formed message whose resource name does not fit the REST route of the next hop
+				bad := pick(r, []string{"not-a-resource", "", "books/b/shelves/s", "shelf/s/books/b"})
+				switch m := call.req.(type) {
+				case *testv1.GetBookRequest:
+					call.req = &testv1.GetBookRequest{Name: bad}
+				case *testv1.ListBooksRequest:
+					call.req = &testv1.ListBooksRequest{Parent: bad, PageSize: m.PageSize}
+				case *testv1.CreateBookRequest:
+					call.req = &testv1.CreateBookRequest{Parent: bad, Book: m.Book}
+				}
+				unroutable, badName = true, bad
+			}
 			var res scenarioResult
 			var form int
 			if chain {
@@ -312,9 +326,12 @@ func init() {
 					gotMsgOK = e.Msg == answerErr.ErrMsg
 				}
 			}
-			c.emit(Case{Suite: "rest.bind", In: L{kind, B(call.name), B(call.target), wantCode, wantDetails},
-				Out: L{reqEqual, respEqual, code, int64(res.Rec.status()), int64(seen.Calls), res.Panic != "", gotDetails, gotMsgOK},
-				Tags: []string{"restbind:" + call.name, "restbind.kind:" + []string{"rest-client", "chain", "invalid", "error"}[kind]}, Desc: res.Panic})
+			if unroutable {
+				kind = 4
+			}
+			c.emit(Case{Suite: "rest.bind", In: L{kind, B(call.name), B(call.target), wantCode, wantDetails, B(badName)},
+				Out: L{reqEqual, respEqual, code, int64(res.Rec.status()), int64(seen.Calls), res.Panic != "", gotDetails, gotMsgOK, int64(res.Rec.headCount())},
+				Tags: []string{"restbind:" + call.name, "restbind.kind:" + []string{"rest-client", "chain", "invalid", "error", "unroutable"}[kind]}, Desc: res.Panic})
 		}
 	}
 }
